@@ -33,6 +33,10 @@ class Run:
             async def handle_async_request(self, request):
                 i = TASK.get()
                 url = str(request.url)
+                if url == TOKEN_URL and getattr(run, "bootstrap", False):
+                    # the application's own first fetch_token(url) (no grant_type argument): answered at once, with a token that is already expired
+                    run.bootstrap = False
+                    return httpx.Response(200, json={"access_token": "old0", "token_type": "Bearer", "expires_in": -10}, request=request)
                 if url == TOKEN_URL:
                     body = request.content.decode()
                     k = run.refresh_n
@@ -112,8 +116,18 @@ class Run:
             token["refresh_token"] = "r0"
         else:
             kw["grant_type"] = "client_credentials"
-        client = AsyncOAuth2Client("cid", "csecret", token=token, token_endpoint=TOKEN_URL, transport=self.transport(),
-                                   update_token=self.update_token if cfg["has_cb"] else None, **kw)
+        cb = self.update_token if cfg["has_cb"] else None
+        if cb is not None and cfg.get("cb_kind") == "sync-returning-awaitable":
+            # "update_token can be sync or async": a plain callable that binds arguments around an async function and returns its awaitable
+            cb = lambda token, **k2: self.update_token(token, **k2)
+        if cfg.get("cc_via_fetch"):
+            # client credentials the other documented way: no grant_type keyword; the first token comes from `await client.fetch_token(url)`
+            kw.pop("grant_type", None)
+            client = AsyncOAuth2Client("cid", "csecret", token_endpoint=TOKEN_URL, transport=self.transport(), update_token=cb, **kw)
+            self.bootstrap = True
+            await client.fetch_token(TOKEN_URL)
+        else:
+            client = AsyncOAuth2Client("cid", "csecret", token=token, token_endpoint=TOKEN_URL, transport=self.transport(), update_token=cb, **kw)
         tasks, started = [], 0
         n = cfg["n"]
         while True:
